@@ -171,9 +171,14 @@ class StreamReversed(StreamWrapper):
     def _read(self, size: int) -> bytes:
         raw = super()._read(size)
 
-        arr = np.frombuffer(raw, np.dtype("int8"))
+        # the substream may hold less than the window promises (damaged
+        # loop points, truncated image): reverse the whole samples that
+        # were read instead of failing on the missing ones
         num_cols = self.sample_width
-        num_rows = size // self.sample_width
+        num_rows = len(raw) // self.sample_width
+        arr = np.frombuffer(
+            raw, np.dtype("int8"), count=num_rows * num_cols
+        )
 
         arr = np.reshape(arr, [num_rows, num_cols])
         arr = np.flip(arr, 0)
